@@ -6,7 +6,7 @@ oracle     : metamorphic; RefWire's span map is used only to know *where* scalar
 """
 import time
 
-from vlib import gen, ir, pyh, runner, common
+from vlib import gen, ir, pyh, runner, common, cppcamp
 from vlib.refwire import RefWire
 from vlib.runner import Violation
 
@@ -80,10 +80,42 @@ def body(case, stats):
             raise Violation(bad[0], common.case_payload(schema, tname, val, bad[1]))
 
 
+class CppCampaign(cppcamp.FullCampaign):
+    """C++ part: encode<little>() / encode<big>() / encode() of the object decoded from the canonical bytes."""
+    prop = ID
+    nontrivial = frozenset({'padding_and_multibyte'})
+
+    def features(self, rw, tname, val):
+        vf = gen.value_features(rw, tname, val)
+        return vf | ({'padding_and_multibyte'} if {'has_padding', 'multibyte_scalar'} <= vf else set()) | {'cpp'}
+
+    def vectors(self, rw, py, tname, val):
+        return [('cpp', 'dec', '<', rw.encode(tname, val, '<')[0], 0)]
+
+    def judge(self, rw, tname, val, vec, res):
+        if 'crash' in res:
+            return ("C++ full codec died on valid bytes: %s" % res['crash'], {'stderr': res.get('stderr', '')[-1500:]})
+        if not res.get('ok'):
+            return None     # C03's business
+        _, spans = rw.encode(tname, val, '<')
+        why = relation(res['encL'], res['encB'], spans)
+        if why:
+            return ("C++ %s: %s" % (tname, why), {'little': res['encL'].hex(), 'big': res['encB'].hex()})
+        if res['encN'] != res['encL']:
+            return ("C++ encode() (native) differs from encode<little>() on a little-endian host",
+                    {'little': res['encL'].hex(), 'native': res['encN'].hex()})
+        return None
+
+
+CPP = CppCampaign()
+
+
 def worker(widx, seed, tier, stats):
-    n = {'quick': 250, 'thorough': 5000}[tier]
+    n = {'quick': 200, 'thorough': 5000}[tier]
     opts = gen.GenOpts(avoid=common.avoid_set(ID))
     runner.run_given(gen.schema_with_values(opts), body, seed, n, stats)
+    if not stats.violations:
+        CPP.worker(widx, seed + 5, tier, stats, {'quick': 1, 'thorough': 20}[tier])
 
 
 def run(tier, seed):
